@@ -2590,6 +2590,9 @@ mod live {
         handlers_started: u64,
         /// ... and connections a backend gave up (handshake wait, age) before it had read anything
         closed_unread: u64,
+        /// "/earlyhold/<tok>": a second handle on the backend's side of the connection, for the
+        /// scenario thread (it ends the connection right after its own write to sozu)
+        early_socks: HashMap<String, TcpStream>,
     }
 
     pub(super) type Shared = Arc<(Mutex<Back>, Condvar)>;
@@ -2700,11 +2703,23 @@ mod live {
                             if cur.is_some() {
                                 break 'conn; // pipelining is never used by sozu
                             }
-                            if verb == "early" {
+                            if verb == "early" || verb == "earlyhold" {
                                 // answer before the request body is there, then close
                                 let body = format!("{tok}:early");
                                 let _ = s.write_all(format!("HTTP/1.1 200 OK\r\nContent-Length: {}\r\nConnection: close\r\n\r\n{body}", body.len()).as_bytes());
                                 back_leave(&sh, &tag);
+                                if verb == "earlyhold" {
+                                    // ... but only when the scenario says so (it may end the
+                                    // connection itself through the second handle)
+                                    if let Ok(c) = s.try_clone() {
+                                        lock(&sh).early_socks.insert(tok.clone(), c);
+                                        sh.1.notify_all();
+                                    }
+                                    let t = Instant::now();
+                                    while !is_released(&sh, &tok) && t.elapsed() < Duration::from_secs(8) {
+                                        std::thread::sleep(Duration::from_millis(1));
+                                    }
+                                }
                                 break 'conn;
                             }
                             cur = Some((tag, verb, tok, 0, false, Instant::now()));
@@ -5798,8 +5813,30 @@ mod live {
     // read. The client writes nothing between the two parts (a frame is atomic on the wire).
     // ------------------------------------------------------------------------------------------
 
-    fn fam_early(cell: &mut Cell, _spec: &Spec, rng: &mut Rng, sink: &mut Sink, base: &Value) -> u64 {
+    /// the second handle on the backend's side of the connection that answered "/earlyhold/<tok>"
+    fn take_early_sock(sh: &Shared, tok: &str, wait: Duration) -> Option<TcpStream> {
+        let deadline = Instant::now() + wait;
+        let mut g = lock(sh);
+        loop {
+            if let Some(c) = g.early_socks.remove(tok) {
+                return Some(c);
+            }
+            let left = deadline.saturating_duration_since(Instant::now());
+            if left.is_zero() {
+                return None;
+            }
+            g = sh.1.wait_timeout(g, left).unwrap_or_else(|e| e.into_inner()).0;
+        }
+    }
+
+    fn fam_early(cell: &mut Cell, spec: &Spec, rng: &mut Rng, sink: &mut Sink, base: &Value) -> u64 {
         let host = H1_HOST;
+        // Three scenarios of four are staged: the backend keeps its connection open after the early
+        // answer; the rest of the DATA frame is written and the backend's side of the connection is
+        // ended by the same thread right behind that write, so that the worker finds both events in
+        // one poll batch, the frontend's first (aimed at readiness events of a closed backend socket
+        // reaching the backend connection opened next).
+        let staged = crate::common::rng::fnv1a(format!("early-staged/{}/{}", spec.cell, spec.j).as_bytes()) % 4 != 0;
         let mut p = match open_client(cell.b, host, true, IoProgram::fast()) {
             Ok(p) => p,
             Err(e) => {
@@ -5825,7 +5862,7 @@ mod live {
         let csid = sid;
         sid += 2;
         let ctok = format!("{tag}-early");
-        frs.push(req_frame(&mut p, csid, "POST", host, &format!("/early/{ctok}"), &tag, false));
+        frs.push(req_frame(&mut p, csid, "POST", host, &format!("/{}/{ctok}", if staged { "earlyhold" } else { "early" }), &tag, false));
         let total = rng.urange(2, 3000);
         let first = rng.urange(1, total - 1);
         let body: Vec<u8> = (0..total).map(|i| b'A' + (i % 23) as u8).collect();
@@ -5850,10 +5887,59 @@ mod live {
         // the rest of the frame (a frame is atomic on the wire: this client has written nothing,
         // not even an automatic acknowledgement, since the first part)
         let alive_before = p.alive();
-        let sent = p.send_bytes(format!("second part of DATA(stream={csid}): {} octets", total - first), &whole[9 + first..]);
+        let sent = if staged {
+            let hold = take_early_sock(&cell.sh, &ctok, react_bound());
+            let sent = p.send_bytes(format!("second part of DATA(stream={csid}): {} octets; the backend's side of the answered connection is ended right behind this write", total - first), &whole[9 + first..]);
+            if let Some(c) = &hold {
+                let _ = c.shutdown(std::net::Shutdown::Both);
+            }
+            release(&cell.sh, &ctok);
+            drop(hold);
+            sink.obs("front.early_staged_scenarios", 1);
+            sink.obs("front.early_staged_rounds", 1);
+            sent
+        } else {
+            p.send_bytes(format!("second part of DATA(stream={csid}): {} octets", total - first), &whole[9 + first..])
+        };
         p.c.auto_ack = true;
         p.c.auto_pong = true;
-        let fence = if sent { p.ping_fence(react_bound()) } else { Fence::Dead };
+        let mut fence = if sent { p.ping_fence(react_bound()) } else { Fence::Dead };
+        // staged: the same exchange three more times on new streams of this connection
+        if staged {
+            for round in 2..=4u32 {
+                if fence != Fence::Acked || p.o.goaway.is_some() {
+                    break;
+                }
+                let rsid = sid;
+                sid += 2;
+                let rtok = format!("{tag}-early{round}");
+                let f = req_frame(&mut p, rsid, "POST", host, &format!("/earlyhold/{rtok}"), &tag, false);
+                let n = 2 + (total + round as usize * 131) % 1500;
+                let cut = 1 + (first + round as usize * 17) % (n - 1);
+                let wire = Fr::new(h2::FT_DATA, h2::FL_END_STREAM, rsid, (0..n).map(|i| b'a' + (i % 19) as u8).collect()).wire();
+                let mut ok = p.send_frs(&[f]);
+                p.c.auto_ack = false;
+                p.c.auto_pong = false;
+                ok = ok && p.send_bytes(format!("first part of DATA(stream={rsid} len={n}): header + {cut} octets"), &wire[..9 + cut]);
+                let _ = ok && p.pump(react_bound(), &mut |o| o.resp.get(&rsid).is_some_and(|r| r.ended) || o.rst.contains_key(&rsid) || o.goaway.is_some());
+                let answered = p.o.resp.get(&rsid).is_some_and(|r| r.ended && r.status == Some(200));
+                let hold = if answered { take_early_sock(&cell.sh, &rtok, react_bound()) } else { None };
+                let sent = ok && p.send_bytes(format!("second part of DATA(stream={rsid}): {} octets; the backend's side of the answered connection is ended right behind this write", n - cut), &wire[9 + cut..]);
+                if let Some(c) = &hold {
+                    let _ = c.shutdown(std::net::Shutdown::Both);
+                }
+                release(&cell.sh, &rtok);
+                drop(hold);
+                p.c.auto_ack = true;
+                p.c.auto_pong = true;
+                if !answered {
+                    // not the early answer (say a default answer of sozu): what follows tells
+                    break;
+                }
+                sink.obs("front.early_staged_rounds", 1);
+                fence = if sent { p.ping_fence(react_bound()) } else { Fence::Dead };
+            }
+        }
         // a new stream recycles a slot (and shrinks the slot vector)
         if fence == Fence::Acked && rng.chance(3, 4) {
             let tok = format!("{tag}-new");
@@ -6609,6 +6695,7 @@ mod live {
             "b.back.answers_written_across_sozu_rst_stream",
             "b.back.bystander_streams_answered_after_a_crossing",
             "b.premise.held",
+            "b.front.early_staged_scenarios",
         ] {
             rep.require(k);
         }
